@@ -215,6 +215,98 @@ CLAIMED["C14"] = dict(
          "last echo / reset is outstanding; the smoothed RTT stays finite and non-negative.",
     note=SHELL_NOTE + " The 1 s timer itself is not executed; passes are 1.0-1.5 s apart in the schedules.")
 
+CLAIMED["C15"] = dict(
+    engine="tlc+codec", design_ref="4.15",
+    technique="TLA+ reference codec over byte sequences (Codec.tla); TLC evaluates the bound / one-type / round-trip / "
+              "layout clauses on every input of an enumerated input space and exports each input with the reference "
+              "outputs for differential replay through every pub fn of crate srtla-protocol; frames decoded and built "
+              "by the real code (every length 0..1500 of every type code, mutated and random frames) are re-decoded by "
+              "TLC from the logged bytes",
+    text="Codec.tla defines packet type, data sequence number / retransmit flag, ParseSrtAck, ParseSrtNak (as segments, "
+         "32-bit numbers as 16-bit pairs, cap 1000 on range expansion), ParseSrtlaAck, keepalive timestamp / "
+         "connection info and the builders from the layouts; TLC checks on the reference that the NAK list never "
+         "exceeds 1000 + #single words, that a frame has one type and that decode(build(x)) = x, cross-checks the "
+         "closed-form range expansion against the literal loop, and enumerates 2.6e5 inputs (all 65536 type prefixes x "
+         "body templates, all strings of length <= 4 over a boundary alphabet, every truncation of valid frames, all "
+         "NAK lists of <= 4 boundary words incl. 0x80000000/0xFFFFFFFF and 998..1000 around the cap, long lists, "
+         "builder arguments over boundary values) that are each run through the real decoders / builders (a panic is "
+         "caught and is a violation); in the other direction 25k-200k frames processed by the real code, among them "
+         "every length 0..1500 of every type code, are validated by TLC against the same module.",
+    note="Totality over all strings up to 1500 bytes is exhaustive only on the enumerated families and sampled beyond "
+         "(seeded); differences on ill-formed NAK loss lists (dangling start, end below start / top bit set, cut by "
+         "the cap), on the retransmit flag of 5..7 byte frames and in the ACK header padding are MODEL-DRIFT, not "
+         "violations. The NAK loss list is taken to start at byte 4 as the crate's own tests pin it. Trusted: TLC, "
+         "the Json/SequencesExt community modules, the 16-bit pair plumbing of the harness.")
+
+CLAIMED["C20"] = dict(
+    engine="tlc+hub", design_ref="4.20",
+    technique="TLA+ model of the subscription hub with one action per critical section / await point and history-"
+              "variable monitors; TLC on complete bounded graphs of all interleavings; a lock-layer module refining "
+              "it (FIFO async mutex, liveness with no fairness on subscribers); every TLC transition replayed on the "
+              "real SubscriptionHub by a manual single-thread executor (real futures polled by hand, real bounded "
+              "tokio mpsc channels, verif-hooks scheduling points); recorded random schedules validated by TLC "
+              "against the property-level hub",
+    text="TLC explores every interleaving, at the await points, of subscribe (AllocId / Insert), unsubscribe, publish "
+         "(Fanout / Prune) by 2-3 tasks and subscriber-side receive / close over 2 channels of capacity 1-2, both "
+         "topics, shared channels, up to 3 subscriptions and 3 publishes (7e6-2e7 transitions), and checks unique "
+         "ids, id/topic tagging, per-subscription duplicate-free publication order, nothing delivered by a fan-out "
+         "that starts after unsubscribe completed, closed entries pruned by the publish that found them, live "
+         "entries never removed, and that fan-out / prune are enabled whatever the channels look like; HubLock adds "
+         "the mutex and shows refinement, that the lock holder never waits and that publish terminates without any "
+         "fairness on subscribers (a blocking-send variant fails both, as a self-test). Every transition of the "
+         "exported graphs (8.7e5 quick) is executed on the real hub: the real futures are polled in TLC's order, a "
+         "publish that returns Pending anywhere but at a released scheduling point is a violation, channel "
+         "contents, hub.len(), return values and (by a final drain + unsubscribe probe of every state) the exact "
+         "queue contents and entry membership are compared; 3e4-2.5e5 events of seeded schedules at a larger scale "
+         "(4 tasks, 3 channels, capacities 1-3) are validated by TLC against the most general hub that keeps the "
+         "property.",
+    note="Single-threaded manual executor: lock contention cannot occur on the real code there (no await inside a "
+         "critical section), so the mutex hand-off is covered by the model (HubLock) only. The control-socket "
+         "connection task and the sender loop that call the hub are not executed by this check. A difference from "
+         "the model that keeps every clause (fewer deliveries, other order inside one fan-out, earlier pruning of "
+         "closed subscribers) is MODEL-DRIFT, not a violation.")
+
+CLAIMED["C19"] = dict(
+    engine="tlc+reload", design_ref="4.19",
+    technique="TLA+ model of the reload path (parser, SIGHUP queue, apply_connection_changes statement by "
+              "statement) with the clauses of the statement as independent action properties; TLC on the complete "
+              "interleaved graph; the parser's input space and every bounded path replayed on the real parser and "
+              "the real apply_connection_changes over loopback uplinks with random conn ids; reload sequences "
+              "replayed through the unmodified event loop with a real SIGHUP; recorded histories validated by TLC "
+              "against the clauses",
+    text="TLC explores every interleaving of routing, state mutation, SIGHUP (any file of the line alphabet, incl. "
+         "a second SIGHUP before the first list is applied) and apply for 3 addresses and checks refused-untouched, "
+         "parsed-exactly, survivors-kept, removed-exactly (uplink, I/O handle, tracker records), added-once and "
+         "selection-forgotten as action properties next to the consistency of the three structures; 7e3-1.4e5 "
+         "files are parsed by the real analyze_ip_reload(_text) (real files, missing path, CRLF, padding, IPv6 "
+         "spellings, 8 garbage shapes) and 5e4-2.5e5 paths are executed on real loopback uplinks (random u64 conn "
+         "ids, packets queued and on the wire, tracker filled through forward_via_connection) comparing labels in "
+         "order, identities, socket identity and a digest of every connection field of survivors, the ConnIoMap "
+         "key set, tracker lookups and last_selected_idx after every step; 800+ reload sequences run through "
+         "run_sender_with_config itself (real SIGHUP raised in-process, ips file on disk, paused clock) comparing "
+         "the label list the loop publishes; 40k-200k event random histories with 8 addresses, the real selector "
+         "and unbindable addresses are judged by TLC on the same clauses.",
+    note="Identities, sockets, tracker and routing choice are observed where the harness holds the structures (the "
+         "SIGHUP / housekeeping arms' three statements replicated); through the unmodified loop only the published "
+         "label list is observable. Order of uplinks, the routing choice when nothing was removed, the refusal "
+         "reason / line number and whether a refused SIGHUP also drops a queued list are drift-level (the statement "
+         "leaves them open). Reader tasks (sync_readers) are executed by the loop part but not observed.")
+
+CLAIMED["C05"] = dict(
+    engine="tlc+inflight+shellsim", design_ref="4.5",
+    technique="TLA+ NakAttr.tla (outstanding sets, the carrier memory as a ring with collision and expiry, the "
+              "charging rule) checked by TLC on every bounded path; every path replayed on the real "
+              "SequenceTracker / links / attribute_nak; ShellSim runs validated by TLC against NakAttr",
+    text="TLC explores every path of <= 7 events (unique copies re-routed to another link, probe copies, colliding "
+         "numbers in a 2-slot ring, clock steps landing on age = 5000 ms and just beyond, cumulative / SRTLA ACKs, "
+         "resets, NAKs of every number) and checks that a NAK charges at most one holder, only the remembered "
+         "carrier while remembered, and that a repeat is a no-op; 8.6e4 paths run on the real tracker and "
+         "attribute_nak with the charge checked as exactly one loss count, one floored window decrement and one "
+         "in-flight slot; in ShellSim runs the per-link deltas around every NAK datagram (lists, ranges, "
+         "duplicates) must equal the specification's charges.",
+    note=SHELL_NOTE + " When the carrier is no longer remembered the property allows any one holder; the comparison "
+         "follows the code's choice (first holder in index order).")
+
 PENDING = {}
 
 def main():
